@@ -79,7 +79,14 @@ func (famDecoder) Gen(r *rand.Rand, n int, _ map[string]string) []any {
 			f.Msg = msg
 			if r.Intn(25) == 0 {
 				// corrupt payloads
-				switch r.Intn(3) {
+				switch r.Intn(5) {
+				case 3:
+					f.Raw = true // a frame with no payload at all: neither timestamp nor text
+					f.Msg = []int{}
+				case 4:
+					f.Typ = 3
+					f.Raw = true
+					f.Msg = []int{}
 				case 0:
 					f.Typ = 3
 					f.Raw = true
